@@ -341,6 +341,16 @@ def random_disc(rng, small=True) -> Disc:
                 n = rng.choice([10, 500, 4026])
                 n2 = n if rng.random() < 0.7 else rng.randint(0, n + 20)
                 pair = [SampleFile(stem + sep + "L", random_words(rng, n)), SampleFile(stem + sep + "R", random_words(rng, n2))]
+                # the halves may differ in everything but the name: loops on one half only, another rate (S102)
+                r = rng.random()
+                if r < 0.35:
+                    pair[1].loop_type = 0
+                    pair[1].loops = [Loop(at=max(2, n2), fine=0, coarse=max(1, n2 // 2), duration=9999)]
+                elif r < 0.5:
+                    pair[0].loop_type = 0
+                    pair[0].loops = [Loop(at=max(2, n), fine=0, coarse=max(1, n // 2), duration=50)]
+                if rng.random() < 0.2:
+                    pair[1].rate = 22050
                 if rng.random() < 0.5:
                     pair.reverse()
                 files += pair
